@@ -18,6 +18,10 @@ REQUIRED_THEOREMS = [
     "write_visible_through_alias", "collection_layout", "copy_is_fresh", "frame",
     "copy_never_aliases", "slice_append_arith_operator_results_fresh", "binary_op_pure",
     "inplace_touches_only_valid_cells",
+    # the invariants and the strengthened forms the above rest on
+    "wf_run", "inv_run", "new_collection_linked", "collection_layout_slots", "component_view",
+    "component_write_seen_in_field", "member_write_seen_in_collection", "disjoint_forever",
+    "frame_disjoint", "views_stable",
 ]
 RULE = ("random operation histories (5-40 operations: construction of scalar/vector/tensor fields, "
         "writes through data/_data_full, marker writes of single cells, boundary-condition ghost writes, "
@@ -495,8 +499,13 @@ class World:
                     fc.data[slot:slot + nc] = m2
                     if not np.array_equal(f.data.reshape(m2.shape), m2.astype(f.data.dtype)):
                         self.fail("write through the collection is not seen through the member field", {"coll": ci, "slot": slot})
+            except Exception as e:  # noqa: BLE001
+                self.fail("write through a member field / the collection failed", {"coll": ci, "error": classify(e)})
             finally:
-                base[...] = save
+                try:
+                    base[...] = save
+                except Exception:  # noqa: BLE001
+                    pass
 
     def check_component(self, ci, write_test):
         pi, c, paddr = self.comp[ci]
@@ -522,8 +531,13 @@ class World:
                 pd[c] = m + 7
                 if not np.array_equal(comp.data, (m + 7).astype(comp.data.dtype)):
                     self.fail("write through the field is not seen through its component view", {"component": ci, "parent": pi})
+            except Exception as e:  # noqa: BLE001
+                self.fail("write through a component view / the field failed", {"component": ci, "parent": pi, "error": classify(e)})
             finally:
-                pf[...] = save
+                try:
+                    pf[...] = save
+                except Exception:  # noqa: BLE001
+                    pass
 
     # ---- one operation -----------------------------------------------------------------------
     def apply(self, d):
@@ -1894,7 +1908,7 @@ def run(ctx):
     per = -(-n_hist // procs)
     # histories per worker whose differential operators run on the compiled (numba) backend; all
     # others use the scipy backend (no compilation)
-    jobs = [(f"C15:{ctx.seed}:{ctx.rng.getrandbits(64)}:{k}", per, ctx.budget(1 if k < 2 else 0, 3))
+    jobs = [(f"C15:{ctx.seed}:{ctx.rng.getrandbits(64)}:{k}", per, ctx.budget(4 if k < 2 else 0, 6))
             for k in range(procs)]
     results = run_many("harness.c15", "worker", jobs, procs=procs, workdir=ctx.workdir)
     mfails, dis = [], []
